@@ -178,6 +178,11 @@ func (m *modeler) fromStruct(t reflect.Type, prefix []string) []*mfield {
 		case ft.Kind() == reflect.Pointer && isPlainStruct(ft.Elem()):
 			f.kind = kPStruct
 			f.children = m.fromStruct(ft.Elem(), f.origin)
+		case (ft.Kind() == reflect.Slice || ft.Kind() == reflect.Array) && implementsText(ft):
+			// a named collection type that is itself a TextUnmarshaler is a
+			// text leaf, whatever its elements are: not recursed into
+			f.kind = kLeaf
+			f.rtype = ft
 		case ft.Kind() == reflect.Slice && isPlainStruct(ft.Elem()):
 			// documented: the transformer recurses into slices of structs,
 			// but not into TextUnmarshaler types
